@@ -82,7 +82,7 @@ def table_cases(handlers):
         for shape in SHAPES.get(h, [None]):
             for role in ("leader", "follower"):
                 for proxy in (0, 1):
-                    for lb in ("ok", "down", "err"):
+                    for lb in ("ok", "down", "err", "none"):     # none = the lock names no holder ("empty")
                         ln = "req %s %s role=%s proxy=%d leader=%s" % (api, name, role, proxy, lb)
                         if shape:
                             ln += " shape=" + shape
